@@ -45,7 +45,8 @@ type lockState struct {
 	byTypeView map[[2]int]vnet.H // (type, view) -> hash for PrepareRequest / PrepareResponse
 	commit     *vnet.Payload
 	preCommit  *vnet.Payload
-	lockView   int // view at the first commit / pre-commit, -1 before
+	tainted    bool // the node followed a view change while flagged watch-only after its (pre)commit (DESIGN 5.19): from then on only a second signature is judged at this height
+	lockView   int  // view at the first commit / pre-commit, -1 before
 	lockSeq    int
 	maxView    int
 }
@@ -133,7 +134,9 @@ func (m *Lock) End(c *vnet.Cluster) {
 					s.lockView, s.lockSeq = int(p.View), e.Seq
 				}
 			case dbft.ChangeViewType:
-				if s.lockView >= 0 {
+				if s.lockView >= 0 && s.tainted {
+					m.inc("consequences-of-the-watch-only-finding-not-judged")
+				} else if s.lockView >= 0 {
 					m.fail(c, "changeview-after-commit", "n%d asked for a view change [%s] after its (pre)commit of view %d", n.ID, p.Short(), s.lockView)
 				}
 			case dbft.RecoveryMessageType:
@@ -164,7 +167,7 @@ func (m *Lock) End(c *vnet.Cluster) {
 					}
 				}
 			}
-			if s.lockView >= 0 && int(p.View) != s.lockView && !retrans {
+			if s.lockView >= 0 && int(p.View) != s.lockView && !retrans && !s.tainted {
 				m.fail(c, "view-moved-after-commit", "n%d sent [%s] in view %d after its (pre)commit of view %d", n.ID, p.Short(), p.View, s.lockView)
 			}
 		case vnet.KEpoch:
@@ -174,9 +177,13 @@ func (m *Lock) End(c *vnet.Cluster) {
 					// watch-only flag is set follows view changes like any observer
 					m.fail(c, "view-change-after-commit-while-watch-only", "n%d entered view %d at height %d after its (pre)commit of view %d while its watch-only flag was set", n.ID, e.V, e.H, s.lockView)
 					s.lockView, s.lockSeq = int(e.V), e.Seq // the lock moves with the node; a second signature stays a violation
+					s.tainted = true
 					if s.maxView < int(e.V) {
 						s.maxView = int(e.V)
 					}
+				} else if s.lockView >= 0 && s.height == e.H && s.tainted {
+					m.inc("consequences-of-the-watch-only-finding-not-judged")
+					s.lockView, s.lockSeq = int(e.V), e.Seq
 				} else if s.lockView >= 0 && s.height == e.H {
 					m.fail(c, "view-change-after-commit", "n%d entered view %d at height %d after its (pre)commit of view %d", n.ID, e.V, e.H, s.lockView)
 				}
@@ -186,7 +193,7 @@ func (m *Lock) End(c *vnet.Cluster) {
 				st[n.ID] = s
 			}
 		case vnet.KAPIRet:
-			if s.lockView >= 0 && s.height == e.H && int(e.V) != s.lockView {
+			if s.lockView >= 0 && s.height == e.H && int(e.V) != s.lockView && !s.tainted {
 				m.fail(c, "view-moved-after-commit", "n%d is in view %d after its (pre)commit of view %d at height %d", n.ID, e.V, s.lockView, e.H)
 			}
 			if s.lockView >= 0 {
